@@ -1,8 +1,14 @@
-"""C03 - fingerprints do not depend on atom numbering or conformer storage order (Properties/C03.v)."""
+"""C03 - fingerprints do not depend on atom numbering or conformer storage order (Properties/C03.v).
+
+Streams: (1) model/implementation tie on renumbered gridded molecules (shared pool, plus - coverage extension - symmetric compounds,
+flat layouts, error-path molecules and threshold-directed symmetric centres, under structured permutations and rebuilt molecules);
+(2) metamorphic search on the implementation with random shuffles and re-assigned conformer ids; (3), (4) the two implementation-
+level streams of props/c03_cov.py (audit table: work/coverage_C03.md)."""
 import core
 import m1lib
 import molfacts
 import molgen
+from props import c03_cov as C
 
 
 def renumbered(m, rng):
@@ -32,10 +38,30 @@ def run(ctx):
     found = False
     # tie: the model on renumbered inputs (its atoms are identified by index, so any numbering is a different model input)
     pool = []
+    tie_kinds = {}
     for (name, m, cid) in molgen.pool(rng, ctx.n(50, 900)):
-        m2, order = renumbered(m, rng)
-        pool.append((name + ' renumbered', m2, cid))
+        if rng.random() < 0.5:
+            m2, order = renumbered(m, rng)
+            kind = 'random'
+        else:
+            # coverage extension: structured permutations and rebuilt molecules (props/c03_cov.py)
+            m2, order, kind = C.variant_of(m, rng.choice(C.PERM_KINDS), rng)
+        tie_kinds[kind] = tie_kinds.get(kind, 0) + 1
+        pool.append((name + ' renumbered (%s)' % kind, m2, cid))
     cases = m1lib.gen_cases(ctx, ctx.n(45, 800), pool=pool)
+    # coverage extension: symmetric / repeated-fragment compounds and threshold-directed symmetric centres, renumbered, against the model
+    xpool, spool = [], []
+    for (cls, name, m, cid, fixed) in C.bases(ctx, ctx.n(24, 300), 0, 0, 0, 0, ctx.n(6, 60), ctx.n(4, 30)):
+        m2, order, kind = C.variant_of(m, rng.choice(C.PERM_KINDS), rng)
+        tie_kinds[kind] = tie_kinds.get(kind, 0) + 1
+        xpool.append(('%s [%s] renumbered (%s)' % (name, cls, kind), m2, cid))
+    for (cls, name, m, cid, fixed) in C.bases(ctx, 0, 0, ctx.n(20, 200), 0, 0, 0, 0):
+        m2, order, kind = C.variant_of(m, rng.choice(C.PERM_KINDS), rng)
+        spool.append(('%s renumbered (%s)' % (name, kind), m2, cid))
+    cases += m1lib.gen_cases(ctx, ctx.n(16, 250), pool=xpool)
+    cases += m1lib.gen_cases(ctx, ctx.n(10, 150), pool=spool,
+                             opt_filter=lambda o: dict(o, stereo=True, level=max(1, o['level'] or 2), mult=max(o['mult'], 1.5), incl=True))
+    ctx.coverage['input_distribution']['tie_permutation_kinds'] = tie_kinds
     found |= m1lib.run_cases(ctx, cases, 'C03 model/implementation tie on renumbered molecules') > 0
     # search on the implementation: random permutations and conformer orders
     stats = {'permutations': 0, 'conformer_orders': 0, 'skipped_unstable': 0}
@@ -81,14 +107,33 @@ def run(ctx):
                 ctx.fail('fingerprint of a conformer changed when the conformers were stored in another order',
                          {'name': name, 'conf': cid, 'opts': m1lib.opts_json(o), 'conformer_permutation': perm}, finding_key='C03:conformer-order')
     ctx.coverage['input_distribution']['metamorphic'] = stats
+    # coverage extension (props/c03_cov.py): structured permutations, rebuilt molecules, symmetric / lattice / flat / error-path
+    # molecules, every level + masks + count fingerprints, call sequences; conformers stored with other ids / orders and designated
+    # by id or by object, one object walking over the conformers of one molecule object
+    blist = C.bases(ctx, ctx.n(30, 200), ctx.n(22, 150), ctx.n(12, 80), ctx.n(12, 80), ctx.n(8, 50), ctx.n(8, 40), ctx.n(8, 30))
+    found |= C.stream_permutations(ctx, blist, ctx.n(8, 16))
+    found |= C.stream_conformers(ctx, ctx.n(30, 150), ctx.n(4, 8))
     ctx.coverage['rule'] = ('tie: gridded cases whose molecule was renumbered by a random permutation (Chem.RenumberAtoms) before both sides see it; search: the '
                             'implementation re-run under random atom permutations and conformer storage orders comparing every level\'s identifier multiset, '
-                            'current_level and a folded fingerprint; non-trivial: reaches level >= 1 under a non-identity permutation')
+                            'current_level and a folded fingerprint; coverage extension (props/c03_cov.py): 15 kinds of structured permutations incl. rebuilt '
+                            'molecules with shuffled / flipped bonds, symmetric, lattice, flat, threshold-directed and error-path molecules, per level the '
+                            '(identifier, substructure[, centre]) multiset mapped back, bit and count fingerprints at every level with renumbered atom masks, '
+                            'call sequences on one object, conformers re-stored under other ids / orders, designated by id or object, walked over by one object; '
+                            'non-trivial: reaches level >= 1 under a non-identity permutation / another storage')
     ctx.assumptions += ['the implementation iterates frozensets of shells in hash order while the model iterates in atom order: agreement on renumbered inputs is the evidence that the order is immaterial',
-                        'inputs within 2^-30 of a decision threshold are tagged (harness/m1_spec.py) and skipped']
+                        'inputs within 2^-30 of a decision threshold are tagged (harness/m1_spec.py) and skipped',
+                        'hash values of Shell / Substruct keys are built from ints, tuples and frozensets of ints only, so set iteration order depends on the atom '
+                        'indices (varied by the permutations) and not on PYTHONHASHSEED: no hash-seed subprocesses are run',
+                        'conformers are designated by Python int id or by Conformer object (NumPy integer ids are not usable: findings/repro_cov_c04.py)']
     if not ok:
         core.report_broken_proof(ctx, res, found)
 
 
 def replay(ctx, path):
+    import json
+    d = json.load(open(path))
+    if isinstance(d.get('case'), dict) and d['case'].get('cov'):
+        rc = C.replay(ctx, d)
+        print('VIOLATION property=%s replay=%s' % (ctx.pid, path) if rc else 'the recorded case no longer fails')
+        return rc
     return m1lib.replay_case(ctx, path)
